@@ -149,7 +149,11 @@ Fixpoint obj_loop (fuel : nat) (i : istream) (acc : list delivered) (count : Z) 
                 | Ok (o, i3) =>
                     if negb (s_good i3) then (acc, count, EndException)
                     else
-                      let i4 := if tmp =? 0 then i3 else s_seek tmp i3 in
+                      (* the seek back to the declared end never goes behind it (the reader has to make progress) *)
+                      let i4 := if tmp =? 0 then i3
+                                else let j := s_seek tmp i3 in
+                                     let dend := s_pos i2 + dsz in
+                                     if s_pos j <? dend then s_seek (dend - s_pos j) j else j in
                       let count' := if geti o F_otype =? 115 then count else (count + 1) mod 2 ^ 32 in
                       obj_loop fuel' i4 (acc ++ [(c, o)]) count'
                 end
